@@ -59,6 +59,16 @@ func gen(t *rapid.T) Case {
 	c.SeederTTI = rapid.IntRange(1, 20).Draw(t, "seeder")
 	c.LeecherTTI = rapid.IntRange(1, 20).Draw(t, "leecher")
 	kinds := []string{"download", "download", "feed", "feed", "feed", "apply", "apply", "apply", "apply", "applyc", "remove", "tick", "tick", "stop"}
+	// Half of the cases start by driving blob 0 to the point where all pieces are written
+	// and the completion notice is pending, so that the random tail explores what can be
+	// applied before it.
+	if rapid.Bool().Draw(t, "prefix") {
+		c.Steps = append(c.Steps, Step{Kind: "download"}, Step{Kind: "apply"})
+		if rapid.Bool().Draw(t, "second-waiter") {
+			c.Steps = append(c.Steps, Step{Kind: "download"})
+		}
+		c.Steps = append(c.Steps, Step{Kind: "feed", N: 5})
+	}
 	n := rapid.IntRange(3, 18).Draw(t, "nsteps")
 	for i := 0; i < n; i++ {
 		k := rapid.SampledFrom(kinds).Draw(t, "kind")
